@@ -8,7 +8,7 @@ from .. import AnalysisError
 from ..absint import Evaluator, Unsupported
 from ..flow import show, walk_term
 from ..model import fold_const
-from ..report import ob_ok, ob_fail
+from ..report import ob_ok, ob_fail, ob_undecided
 from .common import is_call, method_call, edge_attr, need, strip_wrappers
 from . import tables
 
@@ -519,5 +519,113 @@ def emit_write_graph(repo, tier="quick"):
                         reason="whether an order symbol is written depends on smiles_format; the flag selects node text, not edge text")) if one_sided else
      obs.append(ob_ok("SIB.S5-format-flag", fi, lp, construct="order symbols are written in both modes under the same conditions", instance="flag-independence",
                       reason="smiles_format only selects node text and symbol placement")))
-    # the symbol comes from the writer table indexed by the order of that edge (checked by classification: SYMtree / SYMring)
+    # ring markers: a new marker is chosen with knowledge of the markers currently in use
+    marker_maps = set()
+    for sub in ast.walk(rl):
+        if isinstance(sub, ast.Assign) and isinstance(sub.targets[0], ast.Subscript) and isinstance(sub.targets[0].value, ast.Name):
+            marker_maps.add(sub.targets[0].value.id)
+    new_arm = NEW_test.body if new_is_true_arm else NEW_test.orelse
+    alloc = None
+    for st in new_arm:
+        if isinstance(st, ast.Assign) and isinstance(st.targets[0], ast.Name):
+            alloc = st
+            break
+    if alloc is None or not marker_maps:
+        obs.append(ob_undecided("PROV.ring-marker", fi, NEW_test, construct="allocation of a new ring marker", instance="allocation",
+                                reason="cannot find `marker = ...` in the new-marker arm"))
+    else:
+        t = fl.canon(alloc.value, cfg.owner[id(alloc.value)])
+        in_use = None
+        for x in walk_term(t):
+            mv = method_call(x, "values") if isinstance(x, tuple) and x and x[0] == "call" else None
+            if mv is not None:
+                in_use = x
+        src = ast.unparse(alloc.value)
+        uses_values = any((mm + ".values()") in src for mm in marker_maps)
+        c = is_call(t, "_get_ring_marker")
+        good = uses_values and (c is None or (c[0] and method_call(c[0][0], "values") is not None))
+        (obs.append(ob_ok("PROV.ring-marker", fi, alloc, construct="marker = f(markers in use = %s.values())" % sorted(marker_maps)[0], instance="allocation",
+                          reason="a marker that is still open is never handed out again")) if good else
+         obs.append(ob_fail("PROV.ring-marker", fi, alloc, construct="marker = %s" % src, instance="allocation",
+                            reason="the new ring marker is not chosen against the set of markers currently in use (the values of the ring -> marker map): "
+                                   "two rings open at the same time can get the same marker")))
+        # closing frees the marker: pop / del of the ring's entry in the closing arm
+        close_arm = NEW_test.orelse if new_is_true_arm else NEW_test.body
+        frees = any(isinstance(x, ast.Call) and isinstance(x.func, ast.Attribute) and x.func.attr == "pop" and isinstance(x.func.value, ast.Name)
+                    and x.func.value.id in marker_maps for st in close_arm for x in ast.walk(st)) or \
+            any(isinstance(x, ast.Delete) for st in close_arm for x in ast.walk(st))
+        (obs.append(ob_ok("PROV.ring-marker", fi, NEW_test, construct="closing a ring removes its entry from the marker map", instance="release",
+                          reason="markers are reused only after their ring was closed")) if frees else
+         obs.append(ob_fail("PROV.ring-marker", fi, NEW_test, construct="closing arm keeps the marker entry", instance="release",
+                            reason="a closed ring's marker is never released: the closing marker is not looked up / the ring opens again")))
+    # the test "does this edge need a symbol" - trusted when it is pysmiles' own, judged when re-implemented locally
+    tgt = repo.resolve_name(fi.module, "_write_edge_symbol")
+    if tgt is not None and tgt.kind == "repo":
+        obs += _tt_edge_symbol(repo, tgt.fi)
+    elif tgt is not None and tgt.kind == "ext":
+        obs.append(ob_ok("TT.edge-symbol", fi, construct="_write_edge_symbol is %s" % tgt.name, instance="needs-symbol",
+                         reason="the decision whether an edge needs a symbol is pysmiles' own"))
     return obs
+
+
+def _tt_edge_symbol(repo, efi):
+    """Truth table of a locally defined _write_edge_symbol(molecule, i, j): a symbol is needed unless
+    (order 1 and not both atoms aromatic) or (order 1.5 and both atoms aromatic)."""
+    from ..absint import Evaluator, Unsupported, MISSING
+    P = efi.positional_params
+    obs = []
+    if len(P) != 3:
+        return [ob_undecided("TT.edge-symbol", efi, construct="_write_edge_symbol signature", instance="needs-symbol", reason="unexpected signature")]
+    diffs = []
+    n = 0
+    for order in (0, 1, 1.5, 2, 3, 4, MISSING):
+        for ai in (True, False, MISSING):
+            for aj in (True, False, MISSING):
+                n += 1
+
+                def hook(ev, call, env, order=order, ai=ai, aj=aj):
+                    if isinstance(call.func, ast.Attribute) and call.func.attr == "get" and call.args:
+                        key = ev.eval(call.args[0], env)
+                        src = ast.unparse(call.func.value)
+                        val = None
+                        if key == "order":
+                            val = order
+                        elif key == "aromatic":
+                            val = ai if P[1] in src and P[2] not in src else aj if P[2] in src and P[1] not in src else None
+                            if val is None:
+                                raise Unsupported("aromatic lookup on %s" % src)
+                        else:
+                            return False, None
+                        if val is MISSING:
+                            return True, (ev.eval(call.args[1], env) if len(call.args) > 1 else None)
+                        return True, val
+                    return False, None
+
+                def load(ev, e, env, order=order):
+                    if isinstance(e, ast.Subscript) and isinstance(e.slice, ast.Constant) and e.slice.value == "order":
+                        if order is MISSING:
+                            from ..absint import Raised
+                            raise Raised("KeyError")
+                        return True, order
+                    if isinstance(e, ast.Name) and e.id in P:
+                        return True, "<%s>" % e.id
+                    return False, None
+                ev = Evaluator(call_hook=hook, load_hook=load)
+                try:
+                    res = ev.run_function(efi.node, {})
+                except Unsupported as err:
+                    return [ob_undecided("TT.edge-symbol", efi, construct="local _write_edge_symbol", instance="needs-symbol",
+                                         reason="outside the predicate language: %s" % err)]
+                got = bool(res[1]) if res[0] == "return" else "raise"
+                o = 1 if order is MISSING else order
+                both = ai is True and aj is True
+                want = not ((o == 1 and not both) or (o == 1.5 and both))
+                if got != want:
+                    diffs.append("order %s, aromatic (%s, %s): needs symbol %s, function says %s" % (order, ai, aj, want, got))
+    if diffs:
+        return [ob_fail("TT.edge-symbol", efi, construct=d, instance="needs-symbol",
+                        reason="the local re-implementation of the edge-symbol test differs from the OpenSMILES rule "
+                               "(a single bond between two aromatic atoms must be written, an aromatic bond between them must not)") for d in diffs[:4]]
+    return [ob_ok("TT.edge-symbol", efi, construct="local _write_edge_symbol over %d states" % n, instance="needs-symbol",
+                  reason="equals the OpenSMILES rule")]
+
